@@ -31,14 +31,57 @@ import (
 // process (trivial case, tag other-conf) - the leg with that pair runs it.
 var arlCap, arlRate = 2.0, 7.0
 
+// number of archiver workers (the archstop driver asks for more: all its cases hold workers at the same time)
+var arlWorkers = 64
+
+// The operator's --warc-discard-status list (config.WARCDiscardStatus, read by the discard hook on
+// every response) is process-wide as well: one list per driver process, from the `discard=` field of
+// a single -input, else from ZV_ARCHRL_DISCARD (set per leg), else Zeno's default (429).  "none" is
+// the empty list.  What the limiter hears about a response must not depend on it.
+var arlDiscard = []int{429}
+
 func arlConfString() string { return fmt.Sprintf("%g,%g", arlCap, arlRate) }
+
+func arlDiscardString() string {
+	if len(arlDiscard) == 0 {
+		return "none"
+	}
+	l := make([]string, len(arlDiscard))
+	for i, v := range arlDiscard {
+		l[i] = strconv.Itoa(v)
+	}
+	return strings.Join(l, ",")
+}
+
+// arlOtherProcess: the input names a (capacity, rate) pair or a discard list this process was not started with
+func arlOtherProcess(kv map[string]string) bool {
+	if c := kv["conf"]; c != "" && c != arlConfString() {
+		return true
+	}
+	if d := kv["discard"]; d != "" && d != arlDiscardString() {
+		return true
+	}
+	return false
+}
 
 func arlChooseConf() {
 	conf := os.Getenv("ZV_ARCHRL_CONF")
+	disc := os.Getenv("ZV_ARCHRL_DISCARD")
 	for i, a := range os.Args {
 		if a == "-input" && i+1 < len(os.Args) {
 			if c := parseKV(os.Args[i+1])["conf"]; c != "" {
 				conf = c
+			}
+			if d := parseKV(os.Args[i+1])["discard"]; d != "" {
+				disc = d
+			}
+		}
+	}
+	if disc != "" {
+		arlDiscard = nil
+		for _, f := range strings.Split(disc, ",") {
+			if v, err := strconv.Atoi(f); err == nil && v >= 100 && v <= 599 {
+				arlDiscard = append(arlDiscard, v)
 			}
 		}
 	}
@@ -61,7 +104,8 @@ func init() {
 		Header:   "From Coq Require Import Uint63.\nFrom ZenoV Require Import Lib.Harness Rate.Bucket Rate.RateHarness.\nOpen Scope list_scope.\nOpen Scope uint63_scope.\n",
 		CaseType: "acase",
 		Footer:   "\nDefinition DIFF := Eval vm_compute in adiffs cases.\nPrint DIFF.\nDefinition MON := Eval vm_compute in amons cases.\nPrint MON.\n",
-		Rule: "one case = (max-retry 0-2, status script of 1-4 answers from {429,408,425,500,502,503,504,599,200,404}, 2-3 items for one fresh host) run through the real " +
+		Rule: "one case = (max-retry 0-2, status script of 1-4 answers from {429,408,425,403 Cloudflare challenge (403c),403,500,502,503,504,599,200,404}, 2-3 items for one fresh host, " +
+			"one --warc-discard-status list per process) run through the real " +
 			"archiver; an item is submitted when the previous one has come back, the last one is watched for 1.5 s; distinct by input text; " +
 			"non-trivial when a throttling status was answered and a later item was submitted",
 		Setup:    setupArchRL,
@@ -100,7 +144,7 @@ func setupArchRL() {
 	must(config.InitConfig())
 	c := config.Get()
 	c.Job = "c13"
-	c.WorkersCount = 64 // an item held back by a penalty occupies its worker for >= 5 s
+	c.WorkersCount = arlWorkers // an item held back by a penalty occupies its worker for >= 5 s
 	c.MaxConcurrentAssets = 16
 	c.WARCWriteAsync = false
 	c.WARCPoolSize = 1
@@ -113,6 +157,7 @@ func setupArchRL() {
 	c.RateLimitCapacity = arlCap
 	c.RateLimitRefillRate = arlRate
 	c.RateLimitCleanupFrequency = time.Hour // 64*16 = 1024 buckets, no cleanup: no bucket is evicted in a run
+	c.WARCDiscardStatus = append([]int{}, arlDiscard...)
 	c.MaxRetry = 0
 	c.HTTPTimeout, c.HTTPReadDeadline = -1, 60
 	c.NoStdoutLogging, c.NoStderrLogging, c.NoFileLogging = true, true, true
@@ -134,7 +179,29 @@ func setupArchRL() {
 	}()
 }
 
-var arlStatuses = []int{429, 429, 408, 425, 500, 500, 500, 502, 503, 504, 599, 200, 404}
+// "403c" = status 403 with the header `cf-mitigated: challenge` (a Cloudflare challenge page: a failure
+// for the limiter, with a penalty); a plain 403 is a success for archive()
+var arlStatuses = []string{"429", "429", "408", "425", "403c", "403c", "403", "500", "500", "500", "502", "503", "504", "599", "200", "404"}
+
+type answer struct {
+	status int
+	chal   bool
+}
+
+func parseScript(sc string) []answer {
+	var out []answer
+	for _, s := range strings.Split(sc, ",") {
+		chal := strings.HasSuffix(s, "c")
+		if v, err := strconv.Atoi(strings.TrimSuffix(s, "c")); err == nil && v >= 200 && v <= 599 {
+			out = append(out, answer{v, chal})
+		}
+	}
+	return out
+}
+
+func (a answer) throttle() bool {
+	return a.status == 429 || a.status == 408 || a.status == 425 || a.status == 403 && a.chal
+}
 
 func genArchRL(r *Rng, i int, tier string) string {
 	retry := []int{0, 0, 1}[r.Intn(3)]
@@ -144,16 +211,16 @@ func genArchRL(r *Rng, i int, tier string) string {
 	n := 1 + r.Intn(4)
 	sc := make([]string, n)
 	for j := range sc {
-		sc[j] = strconv.Itoa(arlStatuses[r.Intn(len(arlStatuses))])
+		sc[j] = arlStatuses[r.Intn(len(arlStatuses))]
 	}
-	in := fmt.Sprintf("conf=%s retry=%d items=%d script=%s", arlConfString(), retry, 2+r.Intn(2), strings.Join(sc, ","))
+	in := fmt.Sprintf("conf=%s discard=%s retry=%d items=%d script=%s", arlConfString(), arlDiscardString(), retry, 2+r.Intn(2), strings.Join(sc, ","))
 	if r.Intn(5) == 0 {
 		// a burst: capacity + k items for one host at once, all answered 200
 		k := 2 + r.Intn(6)
 		if arlRate >= 20 {
 			k = int(arlRate) + r.Intn(int(arlRate)/2)
 		}
-		in = fmt.Sprintf("conf=%s retry=0 burst=%d", arlConfString(), int(arlCap)+k)
+		in = fmt.Sprintf("conf=%s discard=%s retry=0 burst=%d", arlConfString(), arlDiscardString(), int(arlCap)+k)
 	}
 	arlMu.Lock()
 	arlPend = append(arlPend, in)
@@ -219,12 +286,128 @@ type arrival struct {
 	t      int64
 	item   int
 	status int
+	chal   bool
+}
+
+// origin: one listener = one host, answering the scripted sequence (then 200) and recording every
+// request as it arrives
+type origin struct {
+	ln       net.Listener
+	srv      *http.Server
+	host     string
+	start    time.Time
+	mu       sync.Mutex
+	arrivals []arrival
+	closed   bool
+}
+
+func newOrigin(script []answer) *origin {
+	ln, err := net.Listen("tcp", "127.0.0.2:0")
+	must(err)
+	o := &origin{ln: ln, host: ln.Addr().String(), start: time.Now()}
+	o.srv = &http.Server{Handler: http.HandlerFunc(func(w http.ResponseWriter, r *http.Request) {
+		o.mu.Lock()
+		a := answer{200, false}
+		if !o.closed {
+			if len(o.arrivals) < len(script) {
+				a = script[len(o.arrivals)]
+			}
+			item, _ := strconv.Atoi(strings.TrimPrefix(r.URL.Path, "/i"))
+			o.arrivals = append(o.arrivals, arrival{int64(time.Since(o.start)), item, a.status, a.chal})
+		}
+		o.mu.Unlock()
+		if a.chal {
+			w.Header().Set("cf-mitigated", "challenge")
+		}
+		w.Header().Set("Content-Type", "text/plain")
+		w.WriteHeader(a.status)
+		w.Write([]byte("x\n"))
+	})}
+	go o.srv.Serve(ln)
+	return o
+}
+
+func (o *origin) shut() {
+	o.srv.Close()
+	o.ln.Close()
+}
+
+// seen: the number of requests that have arrived so far
+func (o *origin) seen() int {
+	o.mu.Lock()
+	defer o.mu.Unlock()
+	return len(o.arrivals)
+}
+
+// finish closes the observation and returns what arrived
+func (o *origin) finish() []arrival {
+	o.mu.Lock()
+	defer o.mu.Unlock()
+	o.closed = true
+	return append([]arrival{}, o.arrivals...)
+}
+
+// arlSubmit hands item k of case caseNo (URL http://host/i<k>) to the archiver; the channel is closed
+// when the item has come back
+func arlSubmit(host string, caseNo, k int) chan struct{} {
+	raw := fmt.Sprintf("http://%s/i%d", host, k)
+	u := &models.URL{Raw: raw}
+	must(u.Parse())
+	it := models.NewItem(fmt.Sprintf("c13-%d-%d", caseNo, k), u, "")
+	req, err := http.NewRequest(http.MethodGet, u.String(), nil)
+	must(err)
+	req.Header.Set("User-Agent", "zv-c13")
+	u.SetRequest(req)
+	it.SetStatus(models.ItemPreProcessed)
+	ch := make(chan struct{})
+	arlMu.Lock()
+	arlWait[it.GetID()] = ch
+	arlMu.Unlock()
+	arlIn <- it
+	return ch
+}
+
+func arlNextCase() int {
+	arlMu.Lock()
+	defer arlMu.Unlock()
+	arlSeq++
+	return arlSeq
+}
+
+func arlHostState(host string) string {
+	if st, ok := archiver.VerifC13HostState(host); ok {
+		return fmt.Sprintf("(ASt2 %s %s %s %s)", coqZi(int64(st.Fails)), coqFl(st.Rate), coqFl(st.Cap), coqFl(st.Ideal))
+	}
+	return "ANone"
+}
+
+// arlEvTerms: the arrivals as Coq terms, and what item 1 was answered
+func arlEvTerms(evs []arrival) (terms []string, throttled, lastThrottle, challenged bool, per map[int]int) {
+	per = map[int]int{}
+	for _, a := range evs {
+		c := "AE"
+		if a.chal {
+			c = "AEC"
+		}
+		terms = append(terms, fmt.Sprintf("%s %s %d %s", c, uz(a.t), a.item, coqZi(int64(a.status))))
+		per[a.item]++
+		if a.chal && a.status == 403 {
+			challenged = true
+		}
+		if a.item == 1 {
+			lastThrottle = answer{a.status, a.chal}.throttle()
+			if lastThrottle {
+				throttled = true
+			}
+		}
+	}
+	return
 }
 
 func execArchRL(in string) Result {
 	kv := parseKV(in)
 	retry := retryOf(in)
-	if c := kv["conf"]; c != "" && c != arlConfString() {
+	if arlOtherProcess(kv) {
 		return Result{Term: fmt.Sprintf("AC (ZP 0) %s %s [] ANone", coqFl(arlCap), coqFl(arlRate)), Tags: []string{"other-conf(not run by this process)"}}
 	}
 	burst, _ := strconv.Atoi(kv["burst"])
@@ -235,68 +418,15 @@ func execArchRL(in string) Result {
 	if nitems < 1 || nitems > 4 {
 		nitems = 2
 	}
-	var script []int
-	for _, s := range strings.Split(kv["script"], ",") {
-		if v, err := strconv.Atoi(s); err == nil && v >= 200 && v <= 599 {
-			script = append(script, v)
-		}
-	}
-
-	ln, err := net.Listen("tcp", "127.0.0.2:0")
-	must(err)
-	defer ln.Close()
-	host := ln.Addr().String()
-	start := time.Now()
-	var mu sync.Mutex
-	var arrivals []arrival
-	closed := false
-	srv := &http.Server{Handler: http.HandlerFunc(func(w http.ResponseWriter, r *http.Request) {
-		mu.Lock()
-		status := 200
-		if !closed {
-			if len(arrivals) < len(script) {
-				status = script[len(arrivals)]
-			}
-			item, _ := strconv.Atoi(strings.TrimPrefix(r.URL.Path, "/i"))
-			arrivals = append(arrivals, arrival{int64(time.Since(start)), item, status})
-		}
-		mu.Unlock()
-		w.Header().Set("Content-Type", "text/plain")
-		w.WriteHeader(status)
-		w.Write([]byte("x\n"))
-	})}
-	go srv.Serve(ln)
-	defer srv.Close()
-
-	arlMu.Lock()
-	arlSeq++
-	caseNo := arlSeq
-	arlMu.Unlock()
-	submit := func(k int) chan struct{} {
-		raw := fmt.Sprintf("http://%s/i%d", host, k)
-		u := &models.URL{Raw: raw}
-		must(u.Parse())
-		it := models.NewItem(fmt.Sprintf("c13-%d-%d", caseNo, k), u, "")
-		req, err := http.NewRequest(http.MethodGet, u.String(), nil)
-		must(err)
-		req.Header.Set("User-Agent", "zv-c13")
-		u.SetRequest(req)
-		it.SetStatus(models.ItemPreProcessed)
-		ch := make(chan struct{})
-		arlMu.Lock()
-		arlWait[it.GetID()] = ch
-		arlMu.Unlock()
-		arlIn <- it
-		return ch
-	}
+	o := newOrigin(parseScript(kv["script"]))
+	defer o.shut()
+	host := o.host
+	caseNo := arlNextCase()
+	submit := func(k int) chan struct{} { return arlSubmit(host, caseNo, k) }
 
 	state := "ANone"
 	submitted := 0
-	readState := func() {
-		if st, ok := archiver.VerifC13HostState(host); ok {
-			state = fmt.Sprintf("(ASt2 %s %s %s %s)", coqZi(int64(st.Fails)), coqFl(st.Rate), coqFl(st.Cap), coqFl(st.Ideal))
-		}
-	}
+	readState := func() { state = arlHostState(host) }
 	if burst > 0 {
 		// all items at once; the burst is watched for the window (items still held back stay with
 		// their workers and are not observed any more)
@@ -345,30 +475,18 @@ func execArchRL(in string) Result {
 			break
 		}
 	}
-	mu.Lock()
-	closed = true
-	evs := append([]arrival{}, arrivals...)
-	mu.Unlock()
+	evs := o.finish()
 
-	var terms []string
-	throttled, lastThrottle := false, false
-	per := map[int]int{}
-	for _, a := range evs {
-		terms = append(terms, fmt.Sprintf("AE %s %d %s", uz(a.t), a.item, coqZi(int64(a.status))))
-		per[a.item]++
-		if a.item == 1 {
-			lastThrottle = a.status == 429 || a.status == 408 || a.status == 425
-			if lastThrottle {
-				throttled = true
-			}
-		}
-	}
-	tags := []string{fmt.Sprintf("max-retry:%d", retry), "conf:" + arlConfString()}
+	terms, throttled, lastThrottle, challenged, per := arlEvTerms(evs)
+	tags := []string{fmt.Sprintf("max-retry:%d", retry), "conf:" + arlConfString(), "warc-discard-status:" + strings.ReplaceAll(arlDiscardString(), ",", "+")}
 	if burst > 0 {
 		tags = append(tags, "burst>capacity")
 	}
 	if throttled {
 		tags = append(tags, "throttle-answered")
+	}
+	if challenged {
+		tags = append(tags, "challenge-page-answered")
 	}
 	if lastThrottle {
 		tags = append(tags, "last-attempt-throttled")
@@ -434,6 +552,11 @@ func coqFl(f float64) string {
 // executed concurrently with the generated ones instead of one after the other.
 func corpusLines() []string {
 	var out []string
+	for _, a := range os.Args {
+		if a == "-input" { // a single input is run alone: the framework ignores the corpus then
+			return nil
+		}
+	}
 	for i, a := range os.Args {
 		if a == "-corpus" && i+1 < len(os.Args) {
 			if raw, err := os.ReadFile(os.Args[i+1]); err == nil {
